@@ -425,3 +425,34 @@ func symbols(s string, f func(string)) {
 		i = j
 	}
 }
+
+// constArray: an array holding z everywhere.  cvc5 accepts (as const ...)
+// only for value literals; otherwise a global array constant with a
+// quantified definition is used.
+func (u *Universe) constArray(idx, elem Sort, z Term) Term {
+	srt := arraySort(idx, elem)
+	if isValueLiteral(z.S) {
+		return Term{fmt.Sprintf("((as const %s) %s)", srt, z.S), srt}
+	}
+	name := "zarr." + sortTag(idx) + "." + sortTag(elem)
+	if _, ok := u.consts[name]; !ok {
+		u.declareConst(name, srt)
+		u.axiom(fmt.Sprintf("(assert (forall ((i %s)) (! (= (select %s i) %s) :pattern ((select %s i)))))", idx, name, z.S, name), name)
+	}
+	return Term{name, srt}
+}
+
+func isValueLiteral(s string) bool {
+	if s == "true" || s == "false" || s == "(mkslice 0 0 0 0)" {
+		return true
+	}
+	if strings.HasPrefix(s, "#x") {
+		return true
+	}
+	for _, c := range s {
+		if c < '0' || c > '9' {
+			return false
+		}
+	}
+	return s != ""
+}
